@@ -91,15 +91,33 @@ package directive
 //@   trusted
 //@   opt globalwrites=pkg/aa.IndentationLevel,pkg/aa.inHeader
 
+// Exec.Apply: every rule it generates is a file rule whose access is exactly the requested
+// transition: <T>x when the first argument T is one of P, U, p, u, PU, pu, otherwise Px
+// (loop invariants over the rule list; file reading, parsing and rendering are trusted or
+// abstracted callees).
 //@ func (Exec).Apply
-//@   opt prop=C02
-//@   trusted
+//@   opt prop=C02,C07
 //@   opt storefirst=pkg/aa.IndentationLevel
+//@   requires opt != nil
+//@   requires Keyword == "#aa:"
+//@   assigns opt.ArgMap, aa.AppArmorProfileFile.Preamble, aa.AppArmorProfileFile.Profiles, aa.Variable.Values, aa.Profile.Attachments
+//@   loop 1 invariant transition == ite(opt.ArgList[0] == "P" || opt.ArgList[0] == "U" || opt.ArgList[0] == "p" || opt.ArgList[0] == "u" || opt.ArgList[0] == "PU" || opt.ArgList[0] == "pu", concat(opt.ArgList[0], "x"), "Px")
+//@   loop 1 invariant forall(k, 0, len(rules), allocated(rules[k]) && typeIs(rules[k], "*aa.File") && len(as(rules[k], "*aa.File").Access) == 1 && as(rules[k], "*aa.File").Access[0] == transition)
+//@   loop 2 invariant transition == ite(opt.ArgList[0] == "P" || opt.ArgList[0] == "U" || opt.ArgList[0] == "p" || opt.ArgList[0] == "u" || opt.ArgList[0] == "PU" || opt.ArgList[0] == "pu", concat(opt.ArgList[0], "x"), "Px")
+//@   loop 2 invariant forall(k, 0, len(rules), allocated(rules[k]) && typeIs(rules[k], "*aa.File") && len(as(rules[k], "*aa.File").Access) == 1 && as(rules[k], "*aa.File").Access[0] == transition)
+//@   loop 3 invariant transition == ite(opt.ArgList[0] == "P" || opt.ArgList[0] == "U" || opt.ArgList[0] == "p" || opt.ArgList[0] == "u" || opt.ArgList[0] == "PU" || opt.ArgList[0] == "pu", concat(opt.ArgList[0], "x"), "Px")
+//@   loop 3 invariant forall(k, 0, len(rules), allocated(rules[k]) && typeIs(rules[k], "*aa.File") && len(as(rules[k], "*aa.File").Access) == 1 && as(rules[k], "*aa.File").Access[0] == transition)
 
+// Dbus.Apply reports an error exactly for the malformed directives that sanityCheck rejects;
+// otherwise it renders the rules of own / talk / common (rendering is a trusted callee) and
+// never indexes out of range.
 //@ func (Dbus).Apply
-//@   opt prop=C02
-//@   trusted
+//@   opt prop=C02,C07
 //@   opt storefirst=pkg/aa.IndentationLevel
+//@   requires opt != nil
+//@   requires Keyword == "#aa:"
+//@   assigns opt.ArgMap
+//@   ensures (second(result) != nil) == (len(opt.ArgList) < 1 || (opt.ArgList[0] != "own" && opt.ArgList[0] != "talk" && opt.ArgList[0] != "common") || !old(has(opt.ArgMap, "name")) || !old(has(opt.ArgMap, "bus")) || (!old(has(opt.ArgMap, "label")) && opt.ArgList[0] == "talk"))
 
 // Generating directives (C07). #aa:dbus: sanityCheck accepts exactly the documented forms
 // and fills in the default path and the name pattern; own yields, on the named bus only,
@@ -138,3 +156,12 @@ package directive
 //@   loop 1 invariant forall(k, 0, len(res), res[k] != nil && allocated(res[k]))
 //@   loop 1 invariant forall(k, 0, len(res), imp(typeIs(res[k], "*aa.Dbus"), as(res[k], "*aa.Dbus").Bus == rules["bus"] && as(res[k], "*aa.Dbus").Path == rules["path"] && as(res[k], "*aa.Dbus").PeerLabel == rules["label"] && as(res[k], "*aa.Dbus").Name == "" && as(res[k], "*aa.Dbus").PeerName == concat(concat("\"{@{busname},", rules["name"]), "}\"") && forall(a, 0, len(as(res[k], "*aa.Dbus").Access), as(res[k], "*aa.Dbus").Access[a] == "send" || as(res[k], "*aa.Dbus").Access[a] == "receive")))
 //@   ensures forall(k, 0, len(result), imp(typeIs(result[k], "*aa.Dbus"), as(result[k], "*aa.Dbus").Bus == rules["bus"] && as(result[k], "*aa.Dbus").Path == rules["path"] && as(result[k], "*aa.Dbus").PeerLabel == rules["label"] && as(result[k], "*aa.Dbus").Name == "" && as(result[k], "*aa.Dbus").PeerName == concat(concat("\"{@{busname},", rules["name"]), "}\"") && forall(a, 0, len(as(result[k], "*aa.Dbus").Access), as(result[k], "*aa.Dbus").Access[a] == "send" || as(result[k], "*aa.Dbus").Access[a] == "receive")))
+//@   ensures len(result) >= 4
+
+// common yields, on the named bus and path only, send/receive rules addressed to the peer
+// label (the org.freedesktop.DBus.Properties / Introspectable / ObjectManager interfaces).
+//@ func (Dbus).common
+//@   opt prop=C07
+//@   assigns nothing
+//@   ensures len(result) >= 1
+//@   ensures forall(k, 0, len(result), imp(typeIs(result[k], "*aa.Dbus"), as(result[k], "*aa.Dbus").Bus == rules["bus"] && as(result[k], "*aa.Dbus").Path == rules["path"] && as(result[k], "*aa.Dbus").PeerLabel == rules["label"] && as(result[k], "*aa.Dbus").Name == "" && forall(a, 0, len(as(result[k], "*aa.Dbus").Access), as(result[k], "*aa.Dbus").Access[a] == "send" || as(result[k], "*aa.Dbus").Access[a] == "receive")))
